@@ -116,7 +116,7 @@ NUM_CARRIERS = ["sub_both", "sub_both2", "assign", "assign_elem", "sub_rhs", "su
                 "dev_hcircle", "dev_poke", "read_sub", "input_sub", "loop_body", "jump_target", "two_statements", "width",
                 "assign_raw", "assign_elem_raw", "print_raw", "print_item_raw", "print_at_raw", "print_last_raw", "print_many",
                 "varptr_sub", "varptr_sub2", "if_nested_false", "if_nested_true", "if_nested_deep",
-                "for_limit_step", "for_all_three"]
+                "for_limit_step", "for_all_three", "poke_fast", "poke_slow", "poke_fast_hex"]
 STR_CARRIERS = ["assign_s", "assign_elem_s", "print_item_s", "print_at_item_s", "if_s_noelse", "if_s_else", "dev_hprint",
                 "dev_hdraw", "loop_body_s", "len_assign"]
 
@@ -212,6 +212,10 @@ def carrier(name, e):
         return one([("dev", "SOUND", {"f": e, "d": e})])
     if name == "dev_hcircle":
         return one([("dev", "HCIRCLE", {"x": n(1), "y": n(2), "r": n(3), "c": None, "ratio": e, "s": None, "e": None})])
+    if name in ("poke_fast", "poke_slow", "poke_fast_hex"):
+        # the CoCo 3 speed pokes are translated specially (play.octo := ...); the value operand is evaluated all the same
+        addr = {"poke_fast": n(65497), "poke_slow": n(65496), "poke_fast_hex": ("hex", 0xFFD9, "FFD9")}[name]
+        return one([("dev", "POKE", {"a": addr, "v": ("bin", "AND", e, n(1))}), ("let", R, F("JOYSTK", n(1)), False)])
     if name == "dev_poke":
         return one([("dev", "POKE", {"a": ("bin", "+", n(1000), e), "v": e})])
     if name == "width":
